@@ -836,7 +836,12 @@ func TestC15Long(t *testing.T) {
 func checkBigRanges(text []byte) string {
 	out := obs.Parse(text)
 	if !out.OK() {
-		return fmt.Sprintf("generated program of %d bytes rejected: %v %v", len(text), out.Err, out.Panic)
+		if out.Panic != nil {
+			return fmt.Sprintf("parsing a generated program of %d bytes panicked: %v", len(text), out.Panic)
+		}
+		// whether a text of this size and depth is accepted is not this property's
+		// business (a nesting limit is legitimate): no tree, no ranges to check
+		return c15Rejected
 	}
 	n := len(text)
 	msg := ""
@@ -931,15 +936,20 @@ func init() {
 		if err != nil {
 			return "bad replay: " + err.Error()
 		}
-		return checkBigRanges(c.text())
+		if msg := checkBigRanges(c.text()); msg != c15Rejected {
+			return msg
+		}
+		return ""
 	})
 }
+
+const c15Rejected = "rejected"
 
 // TestC15Big: ranges in texts around and beyond 64 KiB.
 func TestC15Big(t *testing.T) {
 	sizes := []int{65000, 65530, 65536, 66000, 70000, 131072 + 9, 300000}
 	shapes := []string{"string", "string-in-call", "sum", "list", "lines", "number", "nested", "blank", "conditional"}
-	run := h.Begin("C15", "big", fmt.Sprintf("enumerated: %d shapes (one long string literal, a long sum / list / argument list over many lines / digit run / conditional ladder, a long run of blanks inside a node) at %d sizes around 2^16 and 2^17 and at 300000 bytes; oracle: every range inside the text, children inside the parent in source order, the root covers the text, the end-of-file token ends it, a sample of nodes re-parses to the same subtree; every case non-trivial", len(shapes), len(sizes)))
+	run := h.Begin("C15", "big", fmt.Sprintf("enumerated: %d shapes (one long string literal, a long sum / list / argument list over many lines / digit run / conditional ladder, a long run of blanks inside a node) at %d sizes around 2^16 and 2^17 and at 300000 bytes; oracle: every range inside the text, children inside the parent in source order, the root covers the text, the end-of-file token ends it, a sample of nodes re-parses to the same subtree; non-trivial: the text was accepted (all of them on the unchanged tree)", len(shapes), len(sizes)))
 	defer run.End(t)
 	var idx int64
 	for _, sh := range shapes {
@@ -949,8 +959,13 @@ func TestC15Big(t *testing.T) {
 				continue
 			}
 			c := bigCase{Shape: sh, Size: sz}
+			msg := checkBigRanges(c.text())
+			if msg == c15Rejected {
+				run.Count(false, "rejected (no tree to check)")
+				continue
+			}
 			run.Count(true, sh)
-			if msg := checkBigRanges(c.text()); msg != "" {
+			if msg != "" {
 				run.Fail("c15-big", c, msg)
 			}
 		}
